@@ -6,7 +6,7 @@ rsync -a --exclude target --exclude .git /repo/ $D/
 ( cd $D && patch -p1 -s < "$P" ) || { echo "PATCH-FAILED"; rm -rf $D; exit 3; }
 rc=0
 for id in "$@"; do
-  /verif/check $id --repo $D > $D/out.$id 2>&1; r=$?
+  /verif/check $id --repo $D --no-evidence > $D/out.$id 2>&1; r=$?
   echo "== $id exit=$r"; grep -E "^  (violation|anchor|unmodelled)|KNOWN|Traceback|Error" $D/out.$id | cut -c1-260
   [ $r -ne 0 ] && rc=1
 done
